@@ -54,5 +54,7 @@ def run():
     from . import treewidth_ref, scc_ref
     ok &= treewidth_ref.selftest()
     ok &= scc_ref.selftest()
+    from . import iso
+    ok &= iso.selftest()
     print('oracle self-tests:', 'ok' if ok else 'FAILED')
     return bool(ok)
